@@ -191,6 +191,9 @@ class MessagePackDocument(HierDictDocument):
         if isinstance(value, (six.text_type, six.binary_type)):
             return super(MessagePackDocument, self) \
                                                 .integer_from_bytes(cls, value)
+        # a float with an integral value is still that integer
+        if isinstance(value, float) and value.is_integer():
+            return int(value)
         return value
 
     def integer_to_bytes(self, cls, value, **_):
